@@ -15,7 +15,11 @@ import (
 	"golang.org/x/tools/go/ssa/ssautil"
 )
 
-const repoMod = "/repo/code/go/0chain.net"
+// The tree under verification and the place results go to. Registered commands use the defaults (/repo,
+// /verif); the self-test sets GOVC_REPO / GOVC_SCRATCH to run mutants on a scratch copy next to other work.
+var repoRoot = envOr("GOVC_REPO", "/repo")
+var repoMod = repoRoot + "/code/go/0chain.net"
+var outRoot = envOr("GOVC_SCRATCH", "/verif")
 
 type Program struct {
 	Pkgs    []*packages.Package
@@ -235,7 +239,7 @@ func sortedKeys[V any](m map[string]V) []string {
 }
 
 func relRepo(p string) string {
-	if r, err := filepath.Rel("/repo", p); err == nil && !strings.HasPrefix(r, "..") {
+	if r, err := filepath.Rel(repoRoot, p); err == nil && !strings.HasPrefix(r, "..") {
 		return r
 	}
 	return p
